@@ -43,7 +43,7 @@ RULE = ("case = generated project (shared packages, import sources, tools) + his
 COMPONENTS = {"real": ["bob.audit (Audit/Artifact), builder._generateAudit", "archive up/download (file backend)", "share install/use",
                        "scm.imp audit"],
               "stub": ["event loop (SimLoop), process pool inline"],
-              "not_exercised": ["git/svn/url SCM records (git: C12)", "sandbox trails", "recipes-repository audit (project dir is no git repo)"]}
+              "not_exercised": ["git/svn SCM records (git: C12)", "sandbox trails", "recipes-repository audit (project dir is no git repo)"]}
 ASSUMPTIONS = ["the documented record structure is bob.audit.Audit.SCHEMA"]
 SHRINK = ["ops"]
 
@@ -55,6 +55,7 @@ def plan(tier):
 def gen_case(rng, tier, index):
     feats = {"shared", "checkoutscript"} | set(rng.sample(["import", "vars", "tools", "provideVars", "classes", "diamond", "provideDeps", "depenv", "twins"], rng.randint(1, 5)))
     model = projgen.gen_valid_project(rng, nmin=3, nmax=6, features=feats)
+    url = index % 3 == 1 and projgen.add_url_sources(rng, model, p=0.5) > 0
     ops = [{"ws": "A", "upload": True, "download": "no", "jobs": rng.choice([1, 2]), "seed": rng.getrandbits(32)}]
     hist = [model]
     cur = model
@@ -70,7 +71,8 @@ def gen_case(rng, tier, index):
         if rng.random() < 0.3:
             # the user touches a source workspace: Bob re-runs the (deterministic) checkout
             # script because the workspace changed and must record what is there afterwards
-            ops.append({"tamper": rng.choice(["overwrite-generated", "add-file", "both", "remove-added", "remove-added"]),
+            ops.append({"tamper": rng.choice(["overwrite-generated", "add-file", "both", "remove-added", "remove-added"] +
+                                             (["overwrite-fetched"] * 5 if url else [])),
                         "ws": w, "pick": rng.randrange(100)})
         ops.append({"ws": w, "upload": rng.random() < 0.5,
                     "download": rng.choice(["no", "yes", "deps", "forced-fallback"]),
@@ -119,6 +121,17 @@ def directed_cases(tier):
         b = lambda na: {"ws": "A", "upload": False, "download": "no", "jobs": 1, "seed": rng.getrandbits(32), "shared": False, "no_audit": na}
         out.append({"model": model, "ops": [b(False), {"edit": e}, b(True), {"edit": e2}, b(False)], "meta": {"VERIFKEY": "n%d" % k},
                     "directed": "--no-audit in the middle of a history"})
+    # a file fetched by a digest-pinned url SCM is edited by the user: the checkout does not run again,
+    # the regenerated trail has to record what is in the workspace
+    for k in range(2):
+        lib = projgen._leaf(rng); lib["src"] = "url"
+        lib["url"] = {"rev": 0, "content": "upstream-lib-%d\n" % k, "dir": ["dl", "."][k], "fileName": [None, "data.bin"][k]}
+        root = projgen._leaf(rng); root["depends"] = [{"name": "lib", "use": ["result", "deps"]}]
+        model = {"recipes": {"root": root, "lib": lib}, "classes": {}, "default_env": {}, "sources": {},
+                 "order": ["root", "lib"], "features": ["directed-url-fetched-file-edited", "urlscm"]}
+        b = lambda: {"ws": "A", "upload": False, "download": "no", "jobs": 1, "seed": rng.getrandbits(32), "shared": False}
+        out.append({"model": model, "ops": [b(), {"tamper": "overwrite-fetched", "ws": "A", "pick": 0}, b(), b()],
+                    "meta": {"VERIFKEY": "u%d" % k}, "directed": "file fetched by a url SCM edited by the user"})
     return out
 
 # -- independent re-implementation of the artifact-id digest (documented in audit-trail.rst / audit.py)
@@ -345,6 +358,15 @@ def _verify_workspace(proj, info, executed, meta, stats, provenance_seen, may_mi
                         if scm["digest"]["value"] != d:
                             return "%s: import SCM digest %s recorded, directory hashes to %s" % (where, scm["digest"]["value"][:12], d[:12])
                         stats.inc("scm_records_checked")
+                    elif scm.get("type") == "url":
+                        fp = os.path.join(sp, scm["dir"])
+                        if os.path.isfile(fp):
+                            d = hashlib.sha1(open(fp, "rb").read()).hexdigest()
+                            if scm["digest"]["value"] != d:
+                                return "%s: url SCM digest %s recorded for %s, the file in the workspace hashes to %s" % (
+                                    where, scm["digest"]["value"][:12], scm["dir"], d[:12])
+                            stats.inc("scm_records_checked")
+                            stats.inc("url_scm_records_checked")
             if ent.get("metaEnv") and label == "dist" and os.path.dirname(s["ws"]) in executed:
                 if art.get("metaEnv", {}) != ent["metaEnv"]:
                     return "%s: metaEnv %s recorded, package has %s" % (where, art.get("metaEnv"), ent["metaEnv"])
@@ -414,6 +436,8 @@ def run_case(case):
         TWIN_OF.clear()
         TWIN_OF.update({n: r["label"] for n, r in model["recipes"].items() if r.get("label")})
         model["default_extra"] = {"archive": {"backend": "file", "path": arch}, "share": {"path": store}}
+        model["upstream_root"] = os.path.join(top, "upstream")
+        projgen.write_upstream(model)
         hist = [model]
         files = {}
         clock = projgen.StampClock()
@@ -425,11 +449,24 @@ def run_case(case):
             if "edit" in op:
                 m2 = projgen.apply_edit(model, op["edit"], hist)
                 m2["default_extra"] = model["default_extra"]
+                m2["upstream_root"] = model["upstream_root"]
+                projgen.write_upstream(m2)
                 model = m2
                 hist.append(model)
                 continue
             w = op["ws"]
             proj = projs[w]
+            if op.get("tamper") == "overwrite-fetched":
+                # the user edits a file that a digest-pinned url SCM fetched (the checkout is not run again)
+                fetched = []
+                for d in _glob_src(proj):
+                    for root_, _d, files_ in os.walk(d):
+                        fetched += [os.path.join(root_, f) for f in sorted(files_) if f.endswith(".dat") or f == "data.bin"]
+                fetched.sort()
+                if fetched:
+                    common.write_file(fetched[op["pick"] % len(fetched)], "edited by the user %d\n" % n)
+                    stats.inc("fetched_file_tampered")
+                continue
             if "tamper" in op:
                 cands = sorted(d for d in _glob_src(proj) if os.path.exists(os.path.join(d, "src-out.txt")))
                 if cands:
